@@ -84,3 +84,43 @@ def stream_sections(R, tier, seed):
     for cid, labels, desc in meta:
         judge(S, res.get(cid), labels, desc)
     S["coq_errors"] = errs
+
+
+def stream_sections_asymmetric(R, tier, seed):
+    """multi-section generator, asymmetric branch (sections on both sides of a named root section), as repaired by 6265a26"""
+    from openaerostruct.geometry.geometry_mesh_gen import generate_mesh as gen_sections
+    S = R.stream("multisection.generate_mesh(asymmetric)")
+    cc = CoqCases("sections_asym", IMPORTS); meta = []
+    rng = gen.stable_rng(seed, "sections_asym")
+    for nsec in (2, 3, 4):
+        for root in range(nsec):
+            for rep in range(1 if tier == "quick" else 3):
+                nx = int(rng.integers(2, 5)); ny = rng.integers(2, 6, nsec)
+                taper = rng.uniform(0.4, 1.0, nsec); span = rng.uniform(0.5, 4, nsec); sweep = np.deg2rad(rng.uniform(-10, 30, nsec)); rc = float(rng.uniform(0.5, 3))
+                surface = {"num_sections": nsec, "symmetry": False, "root_section": root, "taper": taper, "sweep": sweep, "span": span, "root_chord": rc, "nx": nx, "ny": ny}
+                try:
+                    mesh, secs = gen_sections(surface)
+                except Exception as e:
+                    S["cases"] += 1; S["failures"].append({"case": {"sections": nsec, "root_section": root}, "bad": [("exception", "%s: %s" % (type(e).__name__, e))]}); continue
+                es = []; labels = []
+                edge = "(root_edge %s)" % fl(rc)
+                for sec in range(root, -1, -1):
+                    s_ = "(@mkSec float %s %s %s)" % (fl(taper[sec]), fl(span[sec]), fl(sweep[sec])); nys = int(ny[sec])
+                    es.append("re (t2 %s %s (fun i j => sec_x %s %s %s (%s - 1 - i) (sec_y %s %s %s j))) %s" % (nat(nx), nat(nys), nat(nx), edge, s_, nat(nx), edge, s_, nat(nys), arr(secs[sec][:, :, 0])))
+                    es.append("re (t1 %s (sec_y %s %s %s)) %s" % (nat(nys), edge, s_, nat(nys), arr(secs[sec][0, :, 1])))
+                    labels += ["x_sec%d" % sec, "y_sec%d" % sec]
+                    edge = "(next_edge %s %s %s)" % (nat(nx), edge, s_)
+                edge = "(root_right_edge %s)" % fl(rc)
+                for sec in range(root + 1, nsec):
+                    s_ = "(@mkSec float %s %s %s)" % (fl(taper[sec]), fl(span[sec]), fl(sweep[sec])); nys = int(ny[sec])
+                    es.append("re (t2 %s %s (fun i j => sec_x_right %s %s %s (%s - 1 - i) (sec_y_right %s %s %s j))) %s" % (nat(nx), nat(nys), nat(nx), edge, s_, nat(nx), edge, s_, nat(nys), arr(secs[sec][:, :, 0])))
+                    es.append("re (t1 %s (sec_y_right %s %s %s)) %s" % (nat(nys), edge, s_, nat(nys), arr(secs[sec][0, :, 1])))
+                    labels += ["x_sec%d(right)" % sec, "y_sec%d(right)" % sec]
+                    edge = "(next_edge_right %s %s %s)" % (nat(nx), edge, s_)
+                cid = cc.add("[" + "; ".join(es) + "]")
+                meta.append((cid, labels, {"fn": "multisection generate_mesh (asymmetric)", "sections": nsec, "root_section": root, "nx": nx, "ny": ny.tolist(), "taper": taper.tolist(), "sweep_rad": sweep.tolist(), "span": span.tolist()}))
+                R.count("sections_asym/n=%d/root=%d" % (nsec, root)); R.mark("seca", nsec, root, rep)
+    res, errs = cc.run(shard=8)
+    for cid, labels, desc in meta:
+        judge(S, res.get(cid), labels, desc)
+    S["coq_errors"] = errs
